@@ -11,6 +11,7 @@
      P:event-missing / P:extra-event / P:event-type   the stream handed to the server differs
      P:close-code  P:close-reason  P:payload-sent  P:accept-args   an event differs in that field
      D:result D:code D:escaped D:finished   model detail the property does not demand
+     P:fault-where-no-send   an armed server fault fired although the specification makes no send there
      H:*                 harness / trace malformed (machinery) *)
 EXTENDS WebSocket, Json, IOUtils
 
@@ -58,20 +59,21 @@ Judge ==
     CASE Ev.a = "start" ->
             IF StartGuard(Ev.first, Ev.mw, Ev.route, Ev.ec, Ev.f)
             THEN Start(Ev.first, Ev.mw, Ev.route, Ev.ec, Ev.f) /\ verdict' = Cmp(last', Ev)
-            ELSE Stay /\ verdict' = "H:start"
+            ELSE Stay /\ verdict' = (IF pc = "start" THEN "P:fault-where-no-send" ELSE "H:start")
       [] Ev.a = "op" ->
             LET p == Ev.prop /\ Raises(OpResult(Ev.op, Ev.sp, Ev.hd, Ev.code, Ev.rs, Ev.k, Ev.v, Ev.f).r) IN
-            IF OpGuard(Ev.op, Ev.sp, Ev.hd, Ev.code, Ev.rs, Ev.k, Ev.v, p, Ev.hk, Ev.ec, "none")
-            THEN (IF OpGuard(Ev.op, Ev.sp, Ev.hd, Ev.code, Ev.rs, Ev.k, Ev.v, p, Ev.hk, Ev.ec, Ev.f)
-                  THEN Op(Ev.op, Ev.sp, Ev.hd, Ev.code, Ev.rs, Ev.k, Ev.v, p, Ev.hk, Ev.ec, Ev.f) /\ verdict' = Cmp(last', Ev)
-                  ELSE Stay /\ verdict' = "H:fault-unused")      \* a fault was armed where the model makes no send
-            ELSE Stay /\ verdict' = "H:op-not-enabled"
+            IF ~(pc = "resp" /\ blk = "none") THEN Stay /\ verdict' = "H:op-not-enabled"
+            ELSE IF OpGuard(Ev.op, Ev.sp, Ev.hd, Ev.code, Ev.rs, Ev.k, Ev.v, p, Ev.hk, Ev.ec, Ev.f)
+                 THEN Op(Ev.op, Ev.sp, Ev.hd, Ev.code, Ev.rs, Ev.k, Ev.v, p, Ev.hk, Ev.ec, Ev.f) /\ verdict' = Cmp(last', Ev)
+                 ELSE Stay /\ verdict' = "P:fault-where-no-send"  \* the code made a send the specification does not make here
       [] Ev.a = "raise" ->
-            IF RaiseGuard(Ev.x, Ev.hk, Ev.ec, Ev.f) THEN Raise(Ev.x, Ev.hk, Ev.ec, Ev.f) /\ verdict' = Cmp(last', Ev)
-            ELSE Stay /\ verdict' = "H:raise-not-enabled"
+            IF ~(pc = "resp" /\ blk = "none") THEN Stay /\ verdict' = "H:raise-not-enabled"
+            ELSE IF RaiseGuard(Ev.x, Ev.hk, Ev.ec, Ev.f) THEN Raise(Ev.x, Ev.hk, Ev.ec, Ev.f) /\ verdict' = Cmp(last', Ev)
+            ELSE Stay /\ verdict' = "P:fault-where-no-send"
       [] Ev.a = "return" ->
-            IF ReturnGuard(Ev.ec, Ev.f) THEN Return(Ev.ec, Ev.f) /\ verdict' = Cmp(last', Ev)
-            ELSE Stay /\ verdict' = "H:return-not-enabled"
+            IF ~(pc = "resp" /\ blk = "none") THEN Stay /\ verdict' = "H:return-not-enabled"
+            ELSE IF ReturnGuard(Ev.ec, Ev.f) THEN Return(Ev.ec, Ev.f) /\ verdict' = Cmp(last', Ev)
+            ELSE Stay /\ verdict' = "P:fault-where-no-send"
       [] Ev.a = "arrive" ->
             LET m == [k |-> Ev.k, v |-> Ev.v]
                 p == blk # "none" /\ Ev.prop /\ Raises(Deliver([w EXCEPT !.pend = <<m>>], blk, m).r) IN
